@@ -178,6 +178,7 @@ func (s *DB) Get(key []byte) ([]byte, error) {
 		s.mutBatch.RUnlock()
 		return nil, common.ErrKeyNotFound
 	}
+	verifPause("db.get.afterIsRemoved")
 
 	data := s.batch.Get(key)
 	s.mutBatch.RUnlock()
